@@ -28,7 +28,7 @@ CHECKS = {
              "host-bits-set bases) and from the named reject classes; each accepted spec is probed at both borders +-2, a random interior and random exterior "
              "addresses, in 16-byte and (for IPv4) 4-byte form, against the documented set computed on 128-bit integers; 1/8 of the blocks of <= 4096 addresses are "
              "swept address by address. non-trivial = probe within 1 of a border, or base with host bits set, or a prefix length outside the 10 the test-suite covers, "
-             "or an invalid spec; distinct by (spec text, probe)",
+             "or an invalid spec; distinct by (spec text, probe). Valid classes include IPv6 CIDRs based in ::/16 (IPv4-mapped and neighbouring space, hexadecimal and dotted spelling); invalid classes include signed prefix lengths and netmask forms written in IPv6 notation",
         assumptions=["net/netip and math/big are trusted as the reference arithmetic", "spec spellings outside the documented grammar and outside the named reject classes are not generated (don't-care)"],
         units=[
             dict(test="TestC14Random", unit="random", kind="rapid", checks=(60000, 1500000), shards=(8, 16)),
@@ -76,7 +76,7 @@ CHECKS = {
              "for synthetic files of 4 GiB-2 KiB..9 GiB, through a PRF-backed read-only filesystem; decoded by the harness's own reader; in both hierarchies the sets of "
              "directories and files must equal the source's and every file's recorded length and bytes must equal the source (in full up to 64 MiB, at all extent "
              "boundaries +-4 KiB and both ends for giants). non-trivial = empty file adjacent to a non-empty one, or a size not a multiple of 2048, or a directory "
-             "with > 40 entries, or a file > 4 GiB; distinct by (route, mode, order seed, tree shape)",
+             "with > 40 entries, or a file > 4 GiB; distinct by (route, mode, order seed, tree shape). Giant unit: sparse files up to 2^50 bytes; a tree beyond 4 TiB - 64 GiB may be refused (image sector numbers), a produced image must be right. Plain-mode images of the lib route are also listed with bsdtar (libarchive), whose listing must equal the source tree",
         assumptions=["the reader in harness/isoread is written from ECMA-119/Joliet and anchored on the repository's third-party testimg.iso",
                      "names outside the portable class and siblings colliding after upper-casing belong to C08 and are not generated here"],
         units=[
@@ -92,7 +92,7 @@ CHECKS = {
              "order; only images whose creation succeeds are judged; the validator checks exactly the invariants the property lists (size = announced = space size, "
              "descriptors, both-endian fields, record length/straddle, ./../child links, L=M path tables complete and pointing right, extents inside/disjoint, zero "
              "padding, PS3 sectors 0/1). non-trivial = directory records exceed one sector, or a name >= 64 characters, or non-ASCII, or > 100 directories, or colliding "
-             "names; distinct by (route, mode, order seed, tree shape)",
+             "names; distinct by (route, mode, order seed, tree shape). The terminator descriptor's version is checked like the others'. Unit too-many-dirs: a synthetic tree of 65 794 directories must be refused (or have complete path tables)",
         assumptions=["the validator's clauses are those of DESIGN Appendix D, each with a negative self-test (TestIsoreadNegative)",
                      "ECMA-119 requirements the property does not name (;1 suffix, record sort order, d-character sets) are not checked"],
         units=[
@@ -107,7 +107,7 @@ CHECKS = {
         rule="trees from the C07/C08 generators (incl. hostile names, wide directories), both modes, 2..6 successive or concurrent opens of the same unchanged "
              "directory through the library, the network and make-iso; all images must have equal size and be byte-identical after masking exactly bytes 813..846 of "
              "sectors 16 and 17 and, in PS3 mode, bytes 64..511 of sector 1; creation must fail for all opens or for none. non-trivial = tree with >= 2 directories and "
-             ">= 3 files opened by >= 2 different routes; distinct by (mode, concurrency, route list, tree shape)",
+             ">= 3 files opened by >= 2 different routes; distinct by (mode, concurrency, route list, tree shape). Each open may spell the directory path differently (trailing separator, /., //). Unit same-server: 2-8 clients of ONE server open the same image at the same instant (barrier) and read all of it concurrently in chunks of 2 KiB..1 MiB from different starting points; every byte must equal what a lone client saw (trees with 150-400 directories and a file of 1-6 MiB in 2/3 of the cases)",
         assumptions=["the directory order is the filesystem's own and unchanged between opens (the permuting wrapper is not used here)",
                      "concurrent opens sample the scheduler; they do not enumerate interleavings"],
         units=[
@@ -124,7 +124,7 @@ CHECKS = {
              "sizes, mtimes, hashes) of the root must be identical afterwards; enabled: each WRITE reply equals the chunk length and the file grew by exactly the payload, "
              "CREATE truncates/creates, DELETE/MKDIR/RMDIR are truthful and change nothing but their target, virtual-image paths are never creatable. unit bin: the same gate "
              "on the real binary with writing enabled by flag, environment, --config INI and ./config.ini. non-trivial = mutating request after a state-changing non-mutating "
-             "one, or an upload with >= 2 chunks or a chunk > 64 KiB, or CREATE of an existing file; distinct by (write mode, transport, request list)",
+             "one, or an upload with >= 2 chunks or a chunk > 64 KiB, or CREATE of an existing file; distinct by (write mode, transport, request list). Unit huge: one WRITE_FILE of 2^31 bytes (thorough: also 2^31-1 and 2^32-1) - refused with nothing written, or acknowledged with its exact count",
         assumptions=[INPROC, "mutations of a path that is currently open on the same connection make later effects unobservable to the model (counted as don't-care)"],
         units=[
             dict(test="TestC05Sessions", unit="sessions", kind="rapid", checks=(1600, 40000), shards=(8, 16)),
@@ -141,7 +141,7 @@ CHECKS = {
              "model keeps the set of not-yet-reported names per open directory: each reported entry must be in it with true name, kind, size (0 for directories), mtime, "
              "ctime and atime (window between open and report; masked in pipelined bursts), dangling links must never be reported, the end marker / bulk listing must "
              "come exactly when every resolvable entry was reported, an exhausted handle lists nothing. non-trivial = a directory with >= 2 entries enumerated with >= 2 "
-             "entry-by-entry calls, or STAT/DIR_SIZE of a non-root path; distinct by (directory shape, path)",
+             "entry-by-entry calls, or STAT/DIR_SIZE of a non-root path; distinct by (directory shape, path). Trees may contain links leading back to the directory itself or an ancestor, and a real directory named like a virtual-image prefix; dir-size truth follows links entering every real directory once (or counts regular files proper; the every-path reading only where no cycle exists)",
         assumptions=[INPROC, "subtrees with symlink cycles are not generated for DIR_SIZE; a sum following links and a sum of regular files proper are both accepted"],
         units=[
             dict(test="TestC06Listing", unit="listing", kind="rapid", checks=(1200, 24000), shards=(8, 16)),
@@ -160,7 +160,7 @@ CHECKS = {
              "recursive snapshot of everything outside the root must be identical before/after; for read-only sessions the reply stream must be byte-identical when the "
              "outside is emptied. unit bin: the same on the real binary with the root spelled absolute / relative / default '.' / './x/' / trailing slash / via '..'. non-trivial = "
              "path that leaves the root lexically, or carries NUL / over-long / doubled-separator / virtual-prefix / prefix-sibling segments; distinct by (opcode, shape, write "
-             "mode, target+spelling, path)",
+             "mode, target+spelling, path). 1/6 of the write-enabled cases serve an empty root and aim RMDIR/DELETE/CREATE/MKDIR at paths that clamp to '/'; the root's own entry in its parent directory must stay the same directory (by identity)",
         assumptions=[INPROC + " (unit bin runs the real binary)", "symlinks inside the root are followed by design and are not generated here"],
         units=[
             dict(test="TestC01Inproc", unit="inproc", kind="rapid", checks=(2400, 60000), shards=(8, 16)),
@@ -212,7 +212,7 @@ CHECKS = {
              "connection, CLOSEFILE, and issue READ_CD_2048 with (start, count) incl. start != count, count 0, ranges crossing EOF; reply must be the concatenation of "
              "raw[24 + k*s, +2048) for k = start..start+count-1 with s detected by the harness's own reading of the rule (2352 when undetectable or outside the window), an "
              "EOF-crossing read a correct prefix then end of connection. non-trivial = start != count and s not in {2048, 2352} with a signature inside the window; distinct by "
-             "(sector size, signature, image size, start, count)",
+             "(sector size, signature, image size, start, count). Histories may replace the open image under its name by one of another sector size (the files exchange names) and open it again, mostly without CLOSEFILE",
         assumptions=[INPROC],
         units=[
             dict(test="TestC17CD", unit="cd", kind="rapid", checks=(1600, 40000), shards=(8, 16)),
@@ -231,7 +231,7 @@ CHECKS = {
              "prefix followed by the end of the connection - never other bytes; after the connection ended the ledger must be balanced (every opened handle closed, incl. member "
              "files of images, key files, PARAM.SFO, scanned directories), the goroutine count back at its baseline, and a fresh connection served. unit random: rapid histories "
              "(C03 generator + image/encrypted opens) with one random fault or ending. non-trivial = an injected fault that fired while >= 1 handle was open, or an ending at a "
-             "point of a history; distinct by (scenario, mode, index, errno, ending)",
+             "point of a history; distinct by (scenario, mode, index, errno, ending). Fault shapes: error without data, short read without error (sequential reads), some bytes AND an error (sequential and positional reads). Scenarios include a raw CD image with 2448-byte sectors (sector-size probe) and a named pipe (open must answer)",
         assumptions=[INPROC, "faults are injected at the afero.Fs boundary (errors and short reads), not inside the kernel",
                      "DIR_SIZE after a fault may report any value up to the true total (the walk skips what it cannot read by design)",
                      "a lookup made to fail with ENOENT legitimately selects another documented key source (C11 don't-care)"],
@@ -282,7 +282,7 @@ CHECKS = {
              "than T-15 ms after the client BEGAN its last complete request is a violation; an idle or stalled connection must be cut within T+max(600 ms, T) (a miss is re-run once and counts only "
              "if it repeats); an active connection must have every request answered unless the measured spacing reached 0.8T (then the case is counted inconclusive, not judged); after the cut the "
              "handle ledger (in-process) or the process's descriptor count (binary) must be back at its baseline. non-trivial = an active connection that lived >= 5T with >= 10 requests, or a "
-             "stall inside a request; distinct by (T, script parameters, target)",
+             "stall inside a request; distinct by (T, script parameters, target). The incomplete request may be a STAT, an OPEN_FILE or a WRITE_FILE (command + payload) and may stop or keep trickling in at 0.2-0.8 T; unit matrix enumerates these shapes in both tiers. Script deaf: a client requests 1 GiB (one ordinary or critical read, or 4000 pipelined reads) and then neither reads nor sends - file and connection must be released within T + slack",
         assumptions=["wall-clock, not a virtual clock: the bounds are sound (client-side timestamps, overload counted as inconclusive), so the check cannot false-alarm but under-tests on a busy machine",
                      "liveness ('is eventually cut') is a bounded-time check with generous slack"],
         units=[
@@ -300,7 +300,7 @@ CHECKS = {
              "how many clients are served at once, whether an idle connection is cut within 2 s, whether debug lines appear, whether every stdout line parses as JSON, on which port pprof "
              "answers); every flag-vs-other-channel pair with conflicting values must show the flag's effect; other channel pairs (all in thorough, 1/3 in quick) must show one of the two "
              "values; a malformed value for whitelist / max-clients / root / read-timeout in any channel must stop start-up (nothing listening, non-zero exit, no crash). non-trivial = two "
-             "channels in conflict, or a non-flag channel alone; distinct by (setting, channel list, values)",
+             "channels in conflict, or a non-flag channel alone; distinct by (setting, channel list, values). Malformed forms per security-relevant setting: wrong syntax, a second wrong form (root = a regular file, 300.1.1.1, 1.5, a duration without unit), the empty value. Every second case runs in a working directory that holds directories named server, decrypt and make-iso",
         assumptions=["the real binary built from the working tree is observed through TCP, stdout, exit status and /proc; precedence between non-flag channels is a don't-care (one of the given values)"],
         units=[
             dict(test="TestC19Config", unit="config", kind="enum", shards=(16, 16), bin=True),
@@ -314,7 +314,7 @@ CHECKS = {
              "the same directory and mode under the C18 mask (and fail when the library refuses the tree); decrypt output must equal the reference plaintext with cleared region table (3k3y: the "
              "256-byte area is a don't-care); with a pre-existing output the tool must exit non-zero and the recursive snapshot (hash, size, mtime) of the scratch directory must be unchanged; a "
              "successful output is then placed under a served root (in PS3ISO, ps3iso/sub, ISOS or the root) and read back through OPEN/READ_FILE/READ_CRIT: bytes must equal the tool output (the "
-             "3k3y area masked or not). non-trivial = existing output, stdout output, or serve-back; distinct by (tool, output kind, location, seed)",
+             "3k3y area masked or not). non-trivial = existing output, stdout output, or serve-back; distinct by (tool, output kind, location, seed). Unit race: 2-4 decrypt runs with different inputs started together on one new output path, 4-10 rounds per case - at most one may succeed, and the file is then exactly its output",
         assumptions=["the real binary built from the working tree is run as a subprocess; the library image is the oracle for make-iso (its own correctness is C07/C08)"],
         units=[
             dict(test="TestC20Tools", unit="tools", kind="rapid", checks=(480, 12000), shards=(8, 16), bin=True),
@@ -333,7 +333,7 @@ CHECKS = {
              "must be answered, the worker must be alive and its output free of 'panic:'/'fatal error:'. unit content: mutated PARAM.SFO / region-table / key / 3k3y contents and hostile trees fed to "
              "FS.Open (in-process, synchronous, panics caught) with Read/Seek/ReadAt scripts, and (1/4) to make-iso / decrypt of the real binary under the same limit: exit status 0 or 1 with a message, "
              "never a goroutine dump. non-trivial = a session that opened a generated or decrypted image and read it unaligned / content that passes its parser's first magic or length check; distinct "
-             "by request list / content bytes",
+             "by request list / content bytes. The fixture also holds a 5 GiB file, trees of 5-9 TiB of sparse data and a 5 TiB encrypted image; counts up to 2^32-1 and offsets 2^k+-delta (k = 31..63) are part of the request alphabet. Unit descriptors: the real binary under ulimit -n 64/256, one client reading the whole image of a tree with 3x as many files and staying connected, 2x as many idle connections coming and going - the process must survive, every read must complete, a new client must be served",
         assumptions=["the address-space limit (8 GB) is an assumption of the crash oracle: it makes count-driven allocations fatal on any host",
                      "replies are not judged here (C02/C03/C13 do that): only survival, liveness and the absence of crash signatures",
                      "the fixture's largest file is 16 MiB: memory exhaustion by many concurrent maximal ordinary reads of multi-GiB files is not explored (DESIGN section 5)"],
